@@ -46,7 +46,7 @@ class svg_matrix:
     returns = Str
     ensures = {"function-of-the-affine": lambda transform, result: result == ufn("svg_matrix_string", "str", spec.aff(transform))}
     native = False
-    note = "formats the affine rounded to 3 digits (picosvg Affine2D.round/tostring)"
+    note = "formats the affine rounded to 3 digits (picosvg Affine2D.round/tostring); conformance-checked natively by c_conformance.svg_matrix_conformance"
 
 
 @contract("nanoemoji.colr_to_svg._apply_transform", props=["C13"])
